@@ -4,8 +4,11 @@ Model: lean/Kopf/Model/C08_Patching.lean (`patchObj`, the stateful server, `cycl
 `memory.remaining_patch`). Theorems: lean/Kopf/Props/C08.lean.
 
 Ties
- (D) the REAL `patching.patch_obj` / `application.apply` against the fake API server, one call (or two
-     consecutive cycles joined by the real `Patch(remaining, body=...)` constructor) per case:
+ (D) carrier "event" (most cases): the REAL `processing.process_resource_event` per cycle — real memories,
+     `Patch(memory.remaining_patch, body=body)`, `application.apply`, the hand-over of the remaining patch and the
+     exception path are the code's own lines; only `process_resource_causes` is a stand-in that accumulates the
+     case's fields and fns. Carrier "daemon": the REAL `patching.patch_obj` / `application.apply`, consecutive
+     calls joined by the real `Patch(remaining, body=...)` constructor. Against the fake API server:
      a grid  sub-resource x initial object x fields x fns x (one foreign write right before one of the
      four possible requests) x (one injected 404/422 at one of them), enumerated completely in the
      thorough tier, sampled in quick, plus random patch contents / several slips / several faults.
@@ -41,7 +44,9 @@ from ..core import Ctx, load_corpus
 ID = "C08"
 LEVEL = "proof"
 ENGINES = ["lean-model", "purediff", "kopfsim"]
-TIE = ("D: real patching.patch_obj / application.apply against the stateful fake API, bounded-exhaustive grid "
+TIE = ("D: the real processing.process_resource_event (only process_resource_causes replaced by a stand-in that accumulates the case's "
+       "fields and fns; real memories, real application.apply, real hand-over of the remaining patch, real exception path) and, for the "
+       "daemons' way, real patching.patch_obj / application.apply, against the stateful fake API, bounded-exhaustive grid "
        "(thorough) + random contents; S: every patch_obj call of whole-operator simulations replayed through the model")
 STRENGTH = "partial"    # DESIGN §8 sense (LEVEL stays the schema's technique category "proof")
 LEVEL_TEXT = (
@@ -65,20 +70,26 @@ LEVEL_TEXT = (
     "daemon_delivery_not_repeated (an LTS of several daemons/timers of one object writing to and delivering their patches in any "
     "interleaving: the patch a daemon holds is exactly what its own invocation wrote, a delivery sends that and nothing else, an "
     "accepted one leaves nothing; tied by replaying the real interleavings — the handlers' own log of their writes + the runner "
-    "tasks' deliveries — through `dstep`); noop_patch_sends_nothing + returns_none_none_iff (a non-empty patch whose fns are no-ops "
+    "tasks' deliveries — through `dstep`); daemon_exit_drops_remaining_witness (NOT LOST is false for a daemon that ends: its loop is left "
+    "right after the last delivery, a refused one's remaining patch is dropped with the task — finding C08-F3, replayed on the real "
+    "operator); remaining_stays_with_its_uid (the memory is per uid: a cycle for a re-used name starts clean); noop_patch_sends_nothing + returns_none_none_iff (a non-empty patch whose fns are no-ops "
     "sends nothing and returns (None, None), the very pair a vanished object gives: the caller cannot tell them apart — what "
     "application.apply does with that is C03/C06's clause); silent_404, raised_only_on_api_error; same_object_partial and the "
     "negation of the full same_object: name_reuse_witness (finding F2). Hand-written model, tied to the real "
     "patch_obj/apply by a differential run (complete over the stated 32130-case grid in the thorough tier, sampled in quick, "
     "plus random contents, several writes per slot, error codes 400/409) and to the whole operator by replaying every "
     "observed patch_obj call. The eventual state of the framework's own finalizer and `applied exactly once` for handler fns "
-    "in closed loops are checked by the oracle.")
+    "in closed loops are checked by the oracle; so are: memory.remaining_patch after every real cycle (= the handler-supplied part of what "
+    "the patching left; unchanged by a cycle that raised), no merge-patch ever writes metadata.finalizers or a system field, a finalizer "
+    "added by another actor right before any request stays until that actor removes it, a refused transformation of a timer is in its "
+    "next accepted delivery, and every write of the operator to the object goes through patching.patch_obj.")
 THEOREMS = [("Kopf.Props.C08", "Kopf.C08." + n) for n in [
     "merge_delivered", "routed_by_subresource", "merge_complete", "status_removal_delivered",
     "fns_atomic", "conflict_keeps_all_fns", "remaining_only_after_refusal",
     "carry_forward", "stale_view_conflicts_and_carries", "accepted_call_empties_memory", "carried_until_accepted",
     "finalizer_redecided", "not_duplicated_partial", "reapplied_after_status_conflict_witness",
     "patch_is_own_accumulation", "delivery_sends_own_patch", "daemon_delivery_not_repeated",
+    "daemon_exit_drops_remaining_witness", "remaining_stays_with_its_uid",
     "noop_patch_sends_nothing", "returns_none_none_iff",
     "silent_404", "raised_only_on_api_error", "same_object_partial", "name_reuse_witness"]]
 RULE = (
@@ -87,7 +98,8 @@ RULE = (
     "[block,setStatus], [user block, block]}(7) x slip {none | one of 4 request kinds x (edit spec, edit finalizers, delete, "
     "delete-and-recreate)}(17) x fault {none | one of 4 kinds x (404, 422)}(9) = 32130 cases (5/6 with process_resource_event's carry rule, 1/6 with the daemons'), half of them followed by a "
     "second (quiet) cycle that starts from the remaining patch; random stream: nested field dicts with null leaves, "
-    "empty dicts, lists, unicode; 0-3 fns over two finalizer names and status keys; 0-2 slip slots with 1-3 writes each; 0-2 faults over {404, 422, 400, 409}; a case is "
+    "empty dicts, lists, unicode; 0-3 fns over two finalizer names and status keys, handler-supplied ones as plain functions, functools.partial "
+    "(keyword `finalizer=`) and callable objects; 0-2 slip slots with 1-3 writes each; 0-2 faults over {404, 422, 400, 409}; a case is "
     "distinct & non-trivial by its abstract trace (request kinds, codes, uid hits, slip fired, outcome) when at least "
     "one request was sent")
 TRUSTED = [
@@ -98,7 +110,7 @@ TRUSTED = [
     "compared by their effect on the body they were computed from",
 ]
 ASSUMPTIONS = [
-    "merge-patch fields never address metadata.finalizers or system metadata (kopf's own never do)",
+    "merge-patch fields never address metadata.finalizers or system metadata (kopf's own never do: checked by the oracle on every merge request)",
     "labels/annotations values in patches are objects (Kubernetes rejects anything else)",
     "transformation functions: kopf's block_deletion/allow_deletion plus one user-style status setter; "
     "arbitrary user fns are outside the model",
@@ -107,6 +119,9 @@ ASSUMPTIONS = [
     "an operator restart loses the in-memory remaining patch (handler-supplied fns of a conflicting cycle): outside the "
     "property's quantifier, not modelled",
     "handler-supplied fns are state-checking / safe to call repeatedly (docs/patches.rst); the model's fns all are",
+    "the order of the two merge-patches is the code's (body, then status) in the model; the oracle does not depend on it",
+    "which fns are `the framework's own` is decided by the oracle as: kopf's block_deletion/allow_deletion partials, whatever finalizer "
+    "name they carry (a handler that queues kopf's private functions itself is not distinguished)",
 ]
 
 ROOT = Path(__file__).resolve().parent.parent.parent
@@ -116,6 +131,7 @@ KINDS = ["mergeBody", "mergeStatus", "jsonBody", "jsonStatus"]
 SYSTEM_META = ("name", "namespace", "uid", "creationTimestamp", "resourceVersion", "deletionTimestamp", "generation")
 SIG_F2 = {"site": "patching.patch_obj",
           "shape": "request target uid differs from the uid the patch was computed for (name reuse)"}
+SIG_F3 = {"site": "daemons._daemon", "shape": "the runner ends after a refused (422) delivery: the remaining transformations are dropped with it"}
 SIG_STATUS_NULL = {"site": "patching.patch_obj",
                    "shape": "status: null with a status subresource: the removal is dropped, no request is sent"}
 
@@ -173,13 +189,15 @@ def abs_payload(kind: str, payload: Any, base: dict | None) -> dict:
     if kind.startswith("merge"):
         return {"merge": payload}
     ops = list(payload or [])
-    if not ops or ops[0].get("op") != "test" or ops[0].get("path") != "/metadata/resourceVersion":
-        return {"raw": ops, "why": "no leading resourceVersion test"}
+    # a JSON-patch is applied as a whole or not at all (RFC 6902 §5): the position of the test does not matter
+    tests = [n for n, op in enumerate(ops) if op.get("op") == "test" and op.get("path") == "/metadata/resourceVersion"]
+    if len(tests) != 1:
+        return {"raw": ops, "why": "no resourceVersion test"}
     try:
-        test = int(ops[0]["value"])
+        test = int(ops[tests[0]]["value"])
     except (TypeError, ValueError):
-        return {"raw": ops, "why": "no leading resourceVersion test"}
-    rest = ops[1:]
+        return {"raw": ops, "why": "no resourceVersion test"}
+    rest = ops[:tests[0]] + ops[tests[0] + 1:]
     paths = [op.get("path", "") for op in rest] + [op["from"] for op in rest if "from" in op]
     other = [p for p in paths if not (p == "/metadata/finalizers" or p.startswith("/metadata/finalizers/")
                                       or p == "/status" or p.startswith("/status/"))]
@@ -215,6 +233,12 @@ def _mk_fn(desc: list) -> Any:
             if not fins:
                 del body["metadata"]["finalizers"]
         return user_fin
+    if desc[0] in ("pblock", "pallow"):
+        # handler-supplied, same effect, but a functools.partial of a plain function (with kopf's own keyword name)
+        return functools.partial(_user_fin_kw, finalizer=desc[1], add=desc[0] == "pblock")
+    if desc[0] in ("cblock", "callow"):
+        # handler-supplied, same effect, a callable object (neither a function nor a partial)
+        return _UserFin(desc[1], desc[0] == "cblock")
     if desc[0] == "uappend":
         # NOT safe to call repeatedly: appends to a status list
         k, v = desc[1], desc[2]
@@ -229,6 +253,37 @@ def _mk_fn(desc: list) -> Any:
             body.setdefault("status", {})[k] = copy.deepcopy(v)
         return set_status
     raise ValueError(desc)
+
+
+def _user_fin_kw(body: dict, *, finalizer: str, add: bool) -> None:
+    fins = body.setdefault("metadata", {}).setdefault("finalizers", [])
+    if add and finalizer not in fins:
+        fins.append(finalizer)
+    if not add:
+        fins[:] = [x for x in fins if x != finalizer]
+    if not fins:
+        del body["metadata"]["finalizers"]
+
+
+class _UserFin:
+    def __init__(self, f: str, add: bool) -> None:
+        self.f, self.add = f, add
+
+    def __call__(self, body: dict) -> None:
+        _user_fin_kw(body, finalizer=self.f, add=self.add)
+
+
+# The identity of a handler-supplied function (plain function / functools.partial / callable object) is a
+# generator dimension only: the property, the oracle and the model speak of its effect.
+_SHAPES = {"pblock": "ublock", "pallow": "uallow", "cblock": "ublock", "callow": "uallow"}
+
+
+def norm_desc(d: list) -> list:
+    return [_SHAPES.get(d[0], d[0])] + list(d[1:])
+
+
+def norm_fns(fns: list) -> list:
+    return [norm_desc(d) for d in fns]
 
 
 class CaseRun:
@@ -250,6 +305,9 @@ class CaseRun:
             self.c.delete(self.kex, "ns", "a")
         self.cur: dict | None = None      # the cycle being run (slips/faults of it)
         self.log: list[dict] = []         # per-request observation of the current call
+        self.names: dict[int, list] = {}  # id(fn object) -> its (normalised) description
+        self.keep: list = []              # the fn objects stay alive for the whole case (ids are never reused)
+        self.memories: Any = None         # the real per-object memories (carrier "event")
         self.c.before_request.append(self._before)
         self.c.fault_rules.append(self._fault)
         self.c.after_write.append(self._after)
@@ -305,8 +363,17 @@ class CaseRun:
                 rec["post"] = self.get()
                 break
 
-    async def call(self, cyc: dict, remaining: Any, via: str, settings: Any, resource: Any, logger: Any) -> dict:
-        """One cycle's patching: `Patch(remaining, body=body)` + this cycle's fields and fns."""
+    async def call(self, cyc: dict, remaining: Any, via: str, settings: Any, resource: Any, logger: Any,
+                   event: bool = False) -> dict:
+        """One cycle's patching.
+
+        `event=False` (the daemons' way): `Patch(remaining, body=body)` + this cycle's fields and fns, handed to the real
+        `patch_obj` / `apply`; the caller keeps what remained, as `_daemon/_timer` do.
+        `event=True`: the REAL `processing.process_resource_event` on a MODIFIED event with the object as the server
+        holds it, with the real per-object memories; only `process_resource_causes` is replaced by a stand-in that
+        accumulates this cycle's fields and fns in the cycle's patch (what handlers and the framework's decisions do).
+        So `Patch(memory.remaining_patch, body=body)`, `application.apply`, the hand-over of the remaining patch to the
+        memory and the exception path are the code's own lines, whatever their helpers are called."""
         from kopf._cogs.clients import patching
         from kopf._cogs.structs import bodies, patches
         from kopf._core.actions import application
@@ -318,44 +385,49 @@ class CaseRun:
         server_before = {"clock": self.c.rv, "uids": self.c.uid_counter, "obj": abs_obj(orig)}
         body = bodies.Body(copy.deepcopy(orig))
         fn_objs = [_mk_fn(d) for d in cyc["fns"]]
-        names = {id(f): d for f, d in zip(fn_objs, cyc["fns"])}
-        if remaining is not None:
-            names.update(remaining[1])
-            patch = patches.Patch(remaining[0], body=body)     # the carry-forward constructor of the code
-        else:
-            patch = patches.Patch(body=body)
-        for k, v in copy.deepcopy(cyc["fields"]).items():
-            patch[k] = v
-        patch.fns.extend(fn_objs)
-        all_fns = [names[id(f)] for f in patch.fns]
+        self.keep.extend(fn_objs)
+        names = self.names
+        names.update({id(f): norm_desc(d) for f, d in zip(fn_objs, cyc["fns"])})
         self.cur = {"slips": cyc.get("slips") or {}, "faults": cyc.get("faults") or {}, "_slipped": set(), "_faulted": set()}
         self.log = []
         n0 = len(self.c.requests)
-        out: dict[str, Any] = {"orig": abs_obj(orig), "orig_raw": orig, "server_before": server_before,
-                               "fields": copy.deepcopy(dict(patch)), "fns": all_fns, "via": via}
+        out: dict[str, Any] = {"orig": abs_obj(orig), "orig_raw": orig, "server_before": server_before, "via": via}
         rem = None
-        if not patch:
-            out["outcome"] = {"kind": "ok", "remaining": None, "body": None}
-            out["empty"] = True
+        if event:
+            await self._event_cycle(cyc, orig, fn_objs, out, settings, resource)
         else:
-            try:
-                if via == "apply":
-                    applied, rv, rem = await application.apply(settings=settings, resource=resource, body=body, patch=patch,
-                                                               delays=[], logger=logger)
-                    out["outcome"] = {"kind": "ok", "remaining": None if rem is None else [names[id(f)] for f in rem.fns]}
-                    out["apply_rv"] = rv
-                else:
-                    rb, rem = await patching.patch_obj(settings=settings, resource=resource, namespace="ns", name="a",
-                                                       patch=patch, logger=logger)
-                    out["outcome"] = {"kind": "ok", "remaining": None if rem is None else [names[id(f)] for f in rem.fns],
-                                      "body": None if rb is None else {"uid": uid_num(rb["metadata"]["uid"]),
-                                                                       "rv": int(rb["metadata"]["resourceVersion"])}}
-                    if rem is not None and dict(rem):
-                        out["outcome"]["remaining_fields"] = dict(rem)
-            except Exception as e:  # noqa: BLE001
-                from kopf._cogs.clients import errors
-                out["outcome"] = {"kind": "raised", "exc": type(e).__name__,
-                                  "status": getattr(e, "status", None) if isinstance(e, errors.APIError) else None}
+            if remaining is not None:
+                self.keep.append(remaining[0])
+                patch = patches.Patch(remaining[0], body=body)     # the carry-forward constructor of the code
+            else:
+                patch = patches.Patch(body=body)
+            for k, v in copy.deepcopy(cyc["fields"]).items():
+                patch[k] = v
+            patch.fns.extend(fn_objs)
+            out["fields"] = copy.deepcopy(dict(patch))
+            out["fns"] = [names[id(f)] for f in patch.fns]
+            if not patch:
+                out["outcome"] = {"kind": "ok", "remaining": None, "body": None}
+                out["empty"] = True
+            else:
+                try:
+                    if via == "apply":
+                        applied, rv, rem = await application.apply(settings=settings, resource=resource, body=body, patch=patch,
+                                                                   delays=[], logger=logger)
+                        out["outcome"] = {"kind": "ok", "remaining": None if rem is None else [names[id(f)] for f in rem.fns]}
+                        out["apply_rv"] = rv
+                    else:
+                        rb, rem = await patching.patch_obj(settings=settings, resource=resource, namespace="ns", name="a",
+                                                           patch=patch, logger=logger)
+                        out["outcome"] = {"kind": "ok", "remaining": None if rem is None else [names[id(f)] for f in rem.fns],
+                                          "body": None if rb is None else {"uid": uid_num(rb["metadata"]["uid"]),
+                                                                           "rv": int(rb["metadata"]["resourceVersion"])}}
+                        if rem is not None and dict(rem):
+                            out["outcome"]["remaining_fields"] = dict(rem)
+                except Exception as e:  # noqa: BLE001
+                    from kopf._cogs.clients import errors
+                    out["outcome"] = {"kind": "raised", "exc": type(e).__name__,
+                                      "status": getattr(e, "status", None) if isinstance(e, errors.APIError) else None}
         self.cur = None
         reqs = []
         last_ok: dict | None = None
@@ -376,8 +448,83 @@ class CaseRun:
         out["reqs"] = reqs
         out["server_after"] = {"clock": self.c.rv, "uids": self.c.uid_counter, "obj": abs_obj(self.get())}
         out["final_raw"] = self.get()
-        out["_remaining"] = None if rem is None else (rem, {id(f): names[id(f)] for f in rem.fns})
+        out["_remaining"] = None if rem is None else (rem, None)
         return out
+
+    async def _event_cycle(self, cyc: dict, orig: dict, fn_objs: list, out: dict, settings: Any, resource: Any) -> None:
+        import asyncio
+        from kopf._cogs.clients import errors, patching
+        from kopf._cogs.structs import ephemera
+        from kopf._core.actions import lifecycles
+        from kopf._core.engines import indexing
+        from kopf._core.intents import registries
+        from kopf._core.reactor import inventory, processing
+        names = self.names
+        if self.memories is None:
+            self.memories = inventory.ResourceMemories()
+        raw_event = {"type": "MODIFIED", "object": copy.deepcopy(orig)}
+        seen: dict[str, Any] = {"calls": []}
+
+        async def causes(**kw: Any) -> Any:
+            patch = kw["patch"]
+            seen["entry_fns"] = [names.get(id(f), ["unknown", repr(f)]) for f in patch.fns]
+            seen["entry_fields"] = copy.deepcopy(dict(patch))
+            for k, v in copy.deepcopy(cyc["fields"]).items():
+                patch[k] = v
+            patch.fns.extend(fn_objs)
+            seen["fields"] = copy.deepcopy(dict(patch))
+            seen["fns"] = [names.get(id(f), ["unknown", repr(f)]) for f in patch.fns]
+            return [], False
+
+        orig_patch_obj = patching.patch_obj
+        orig_causes = processing.process_resource_causes
+
+        async def patch_obj(**kw: Any) -> Any:
+            rec: dict[str, Any] = {"name": kw.get("name"), "namespace": kw.get("namespace"),
+                                   "fields": copy.deepcopy(dict(kw["patch"])),
+                                   "fns": [names.get(id(f), ["unknown", repr(f)]) for f in kw["patch"].fns]}
+            seen["calls"].append(rec)
+            rb, rem = await orig_patch_obj(**kw)
+            rec["ret"] = (rb, rem)
+            return rb, rem
+
+        patching.patch_obj = patch_obj  # type: ignore[assignment]
+        processing.process_resource_causes = causes  # type: ignore[assignment]
+        exc: Exception | None = None
+        try:
+            await processing.process_resource_event(
+                lifecycle=lifecycles.all_at_once, indexers=indexing.OperatorIndexers(), registry=registries.OperatorRegistry(),
+                settings=settings, memories=self.memories, memobase=ephemera.Memo(), resource=resource,
+                raw_event=raw_event, event_queue=asyncio.Queue(), no_throttling=True)  # type: ignore[arg-type]
+        except Exception as e:  # noqa: BLE001
+            exc = e
+        finally:
+            patching.patch_obj = orig_patch_obj  # type: ignore[assignment]
+            processing.process_resource_causes = orig_causes  # type: ignore[assignment]
+        if "fns" not in seen:
+            raise RuntimeError(f"process_resource_event did not reach process_resource_causes: {exc!r}")
+        out["fields"], out["fns"] = seen["fields"], seen["fns"]
+        out["entry_fns"] = seen["entry_fns"]
+        out["event"] = True
+        out["patch_obj_calls"] = [{k: v for k, v in c.items() if k != "ret"} for c in seen["calls"]]
+        if exc is not None:
+            out["outcome"] = {"kind": "raised", "exc": type(exc).__name__,
+                              "status": getattr(exc, "status", None) if isinstance(exc, errors.APIError) else None}
+        elif not seen["calls"]:
+            out["outcome"] = {"kind": "ok", "remaining": None, "body": None}
+            out["empty"] = not seen["fields"] and not seen["fns"]
+        else:
+            rb, rem = seen["calls"][-1]["ret"]
+            out["outcome"] = {"kind": "ok", "remaining": None if rem is None else [names.get(id(f), ["unknown", repr(f)]) for f in rem.fns],
+                              "body": None if rb is None else {"uid": uid_num(rb["metadata"]["uid"]),
+                                                               "rv": int(rb["metadata"]["resourceVersion"])}}
+            if rem is not None and dict(rem):
+                out["outcome"]["remaining_fields"] = dict(rem)
+        memory = await self.memories.recall(raw_event["object"])  # type: ignore[arg-type]
+        mrem = memory.remaining_patch
+        out["memory_after"] = None if mrem is None else [names.get(id(f), ["unknown", repr(f)]) for f in mrem.fns]
+        if mrem is not None and dict(mrem):
+            out["memory_fields"] = copy.deepcopy(dict(mrem))
 
 
 async def _run_case(case: dict, settings: Any, logger: Any) -> dict:
@@ -392,25 +539,18 @@ async def _run_case(case: dict, settings: Any, logger: Any) -> dict:
                                    subresources=frozenset({"status"}) if case["sub"] else frozenset())
     cycles = []
     remaining = None
+    event = case.get("carrier", "event") == "event"
     for cyc in case["cycles"]:
-        o = await run.call(cyc, remaining, case.get("via", "patch_obj"), settings, resource, logger)
+        o = await run.call(cyc, remaining, case.get("via", "patch_obj"), settings, resource, logger, event=event)
         if "skipped" in o:
             cycles.append(o)
             break
-        if o["outcome"]["kind"] != "raised":
-            remaining = o.pop("_remaining")     # memory.remaining_patch = remaining_patch
-            if remaining is not None and case.get("carrier", "event") == "event":
-                # process_resource_event: the framework's own finalizer edits are not carried (the code's own
-                # predicate decides which ones those are; the closed-loop part runs the real lines)
-                from kopf._core.reactor import processing
-                from kopf._cogs.structs import patches
-                is_own = getattr(processing, "_is_finalizer_fn", None)
-                if is_own is not None:
-                    keep = [f for f in remaining[0].fns if not is_own(f)]
-                    remaining = (patches.Patch(fns=keep), remaining[1]) if keep else None
-            o["memory_after"] = None if remaining is None else [remaining[1][id(f)] for f in remaining[0].fns]
-        else:
-            o.pop("_remaining")                 # the exception leaves the memory as it was
+        rem = o.pop("_remaining")
+        if not event:
+            if o["outcome"]["kind"] != "raised":
+                remaining = rem     # `patch = cause.patch = patches.Patch(remaining_patch, body=body)`: everything is kept
+                o["memory_after"] = None if remaining is None else [run.names[id(f)] for f in remaining[0].fns]
+            # after an exception the runner's patch object is as it was (the model's `.raised => mem`)
         cycles.append(o)
     return {"cycles": cycles}
 
@@ -548,10 +688,14 @@ def oracle_call(ctx: Ctx, case: Any, i: int, o: dict, sub: bool, where: str = "p
         want.append(("mergeStatus", {"status": fields["status"]}))
     got = [(r["kind"], r["raw_payload"], r["code"]) for r in reqs if r["kind"].startswith("merge")]
     stopped = any(c != 200 for c in codes)
-    for n, (k, pl) in enumerate(want):
-        if n < len(got):
-            if got[n][0] != k or leanio.canon(got[n][1]) != leanio.canon(pl):
-                fail(f"merge request {n} is {got[n][:2]}, the accumulated patch asks for {(k, pl)}",
+    # (the order of the two merge-patches is not part of the property)
+    unmatched = list(got)
+    for k, pl in want:
+        m = next((g for g in unmatched if g[0] == k), None)
+        if m is not None:
+            unmatched.remove(m)
+            if leanio.canon(m[1]) != leanio.canon(pl):
+                fail(f"the {k} request carries {m[1]}, the accumulated patch asks for {pl}",
                      {"site": "patching.patch_obj", "shape": "merge-patch content or routing differs from the accumulated patch"})
                 break
         elif not any(g[2] != 200 for g in got):
@@ -562,8 +706,22 @@ def oracle_call(ctx: Ctx, case: Any, i: int, o: dict, sub: bool, where: str = "p
                 fail(f"part {k} of the accumulated patch was never sent: {pl}",
                      {"site": "patching.patch_obj", "shape": "a part of the merge-patch was not sent"})
             break
-    if len(got) > len(want):
-        fail(f"unexpected extra merge requests {got[len(want):]}", {"site": "patching.patch_obj", "shape": "extra merge request"})
+    if unmatched and len(got) > len(want):
+        fail(f"unexpected extra merge requests {[g[:2] for g in unmatched]}", {"site": "patching.patch_obj", "shape": "extra merge request"})
+    elif unmatched:
+        fail(f"merge requests {[g[:2] for g in unmatched]} are not what the accumulated patch asks for ({want})",
+             {"site": "patching.patch_obj", "shape": "merge-patch content or routing differs from the accumulated patch"})
+    # -- state-dependent edits never travel in a merge-patch ----------------------------------------------
+    # A merge-patch carries no precondition. The finalizer list (and the system fields) written by one would be a value
+    # computed from SOME earlier state, applied to whatever is there now: exactly what the versioned JSON-patch is for.
+    for r in reqs:
+        if r["kind"].startswith("merge") and isinstance(r["raw_payload"], dict):
+            meta = r["raw_payload"].get("metadata")
+            touched = [k for k in (meta if isinstance(meta, dict) else {}) if k == "finalizers" or k in SYSTEM_META]
+            if touched:
+                fail(f"a merge-patch (no version test) writes metadata.{touched[0]}: {r['raw_payload']}",
+                     {"site": "patching.patch_obj", "shape": "state-dependent field written by an unversioned merge-patch"})
+                break
     if not sub and any(r["kind"] in ("mergeStatus", "jsonStatus") for r in reqs):
         fail("a /status request although the resource has no status subresource", {"site": "patching.patch_obj", "shape": "status routed to a missing subresource"})
     for r in reqs:
@@ -642,29 +800,68 @@ def oracle_call(ctx: Ctx, case: Any, i: int, o: dict, sub: bool, where: str = "p
                      {"site": "patching.patch_obj", "shape": "transformations lost"})
 
 
+SIG_NOT_CARRIED = {"site": "patches.Patch", "shape": "remaining transformations not carried"}
+SIG_MEMORY = {"site": "processing.process_resource_event",
+              "shape": "memory.remaining_patch is not the handler-supplied part of what the cycle's patching left"}
+
+
+def handler_supplied(d: list) -> bool:
+    """The framework's own finalizer edits are decided anew in every cycle (they are not carried by
+    process_resource_event); everything a handler appended is."""
+    return d[0] not in ("block", "allow")
+
+
 def oracle_case(ctx: Ctx, case: dict, obs: dict) -> None:
     cycles = obs["cycles"]
     sub = case["sub"]
+    event = case.get("carrier", "event") == "event"
     for i, o in enumerate(cycles):
         if "skipped" in o or o.get("empty"):
             continue
-        oracle_call(ctx, case, i, o, sub, where=case.get("via", "patch_obj"))
-    # carry-forward: neither lost nor duplicated
+        oracle_call(ctx, case, i, o, sub, where="event cycle" if o.get("event") else case.get("via", "patch_obj"))
+        if o.get("event"):
+            pc = o.get("patch_obj_calls") or []
+            if len(pc) != 1 or pc[0]["name"] != "a" or pc[0]["namespace"] != "ns" \
+                    or leanio.canon(pc[0]["fields"]) != leanio.canon(o["fields"]) or pc[0]["fns"] != o["fns"]:
+                ctx.oracle_fail(f"the cycle accumulated {o['fields']} + {o['fns']}; handed to the patching: {pc}",
+                                {"case": case, "cycle": i},
+                                {"site": "processing.process_resource_event", "shape": "the accumulated patch is not what is handed to the patching"})
+    # carry-forward: what remained for an object (and nothing else) opens the next cycle of that object; an exception
+    # leaves it as it was; neither lost nor duplicated
+    mems: dict[Any, list | None] = {}
+    before: list[list] = []
+    for i, o in enumerate(cycles):
+        if "skipped" in o:
+            before.append([])
+            continue
+        key = o["orig"]["uid"] if event else "runner"
+        exp = list(mems.get(key) or [])
+        before.append(exp)
+        own = norm_fns(case["cycles"][i]["fns"])
+        if o["fns"] != exp + own:
+            ctx.oracle_fail(f"the cycle's patch holds {o['fns']}: what remained for this object is {exp}, the cycle itself accumulated {own}",
+                            {"case": case, "cycle": i}, SIG_NOT_CARRIED)
+        out = o["outcome"]
+        if out["kind"] == "raised":
+            new = mems.get(key)
+        else:
+            rem = out.get("remaining")
+            new = None if rem is None else ([d for d in rem if handler_supplied(d)] if event else list(rem))
+            new = new or None
+        if event and "memory_after" in o:
+            if o["memory_after"] != new or o.get("memory_fields"):
+                ctx.oracle_fail(f"after the cycle ({out['kind']}, remaining {out.get('remaining')}) the memory holds {o['memory_after']} "
+                                f"{o.get('memory_fields') or ''}, expected {new}", {"case": case, "cycle": i}, SIG_MEMORY)
+        mems[key] = new
     for i in range(1, len(cycles)):
         a, b = cycles[i - 1], cycles[i]
         if "skipped" in a or "skipped" in b:
             continue
-        rem = a["outcome"].get("remaining") if a["outcome"]["kind"] == "ok" else None
         if a["outcome"]["kind"] == "raised":
             continue            # the memory stays as it was: covered by the cycle before
-        carried = rem or []
-        if case.get("carrier", "event") == "event":
-            # the framework's own finalizer edits are decided anew, handler-supplied fns are carried
-            carried = [d for d in carried if d[0] not in ("block", "allow")]
+        carried = before[i]
         if b["fns"][:len(carried)] != carried:
-            ctx.oracle_fail("the next cycle's patch does not start with the remaining transformations",
-                            {"case": case, "cycle": i}, {"site": "patches.Patch", "shape": "remaining transformations not carried"})
-            continue
+            continue            # reported above
         if not carried:
             continue
         quiet = not any(r["slip"] for r in b["reqs"]) and all(r["code"] == 200 for r in b["reqs"]) and b["outcome"]["kind"] == "ok"
@@ -701,7 +898,7 @@ def model_request(case: dict, obs: dict) -> list | None:
     for cyc, o in zip(case["cycles"], obs["cycles"]):
         if "skipped" in o:
             break
-        cycles.append({"fields": cyc["fields"], "fns": cyc["fns"], "orig": "server",
+        cycles.append({"fields": cyc["fields"], "fns": norm_fns(cyc["fns"]), "orig": "server",
                        "slips": cyc.get("slips") or {}, "faults": {k: v for k, v in (cyc.get("faults") or {}).items() if v}})
     return ["C08.cycles", {"sub": case["sub"], "daemon": case.get("carrier", "event") == "daemon",
                            "server": first["server_before"], "memory": None, "cycles": cycles}]
@@ -720,7 +917,7 @@ def impl_view(o: dict, via: str) -> dict:
     return view
 
 
-def model_view(m: dict, via: str) -> dict:
+def model_view(m: dict, via: str, with_memory: bool = False) -> dict:
     res = m["result"]
     out = dict(res["outcome"])
     if out["kind"] == "gone":
@@ -730,7 +927,7 @@ def model_view(m: dict, via: str) -> dict:
     srv = dict(res["server"])
     srv["obj"] = canon_model_obj(srv["obj"])
     view = {"reqs": res["reqs"], "server": srv, "outcome": out}
-    if "memory" in m and out["kind"] != "raised":
+    if "memory" in m and (out["kind"] != "raised" or with_memory):
         view["memory"] = m["memory"]
     return view
 
@@ -876,9 +1073,9 @@ def _rand_fns(rng: Any) -> list:
         elif r < 0.55:
             out.append(["allow", f])
         elif r < 0.7:
-            out.append(["ublock", rng.choice(["user.io/u", f])])
+            out.append([rng.choice(["ublock", "ublock", "pblock", "cblock"]), rng.choice(["user.io/u", f])])
         elif r < 0.8:
-            out.append(["uallow", rng.choice(["user.io/u", f])])
+            out.append([rng.choice(["uallow", "uallow", "pallow", "callow"]), rng.choice(["user.io/u", f])])
         elif r < 0.93:
             out.append(["setStatus", rng.choice(["seen", "observed"]), rng.choice([1, "s", {"a": [1]}, True])])
         else:
@@ -932,7 +1129,10 @@ def evaluate(ctx: Ctx, cases: list[dict], tie: bool = True) -> None:
                       "impl": [impl_view(o, case.get("via", "patch_obj")) for o in obs["cycles"] if "reqs" in o]}
         ctx.case(key=key, nontrivial=nontrivial, sample=sample)
         ctx.count("source", case.get("tag", "?").split(":")[0])
-        ctx.count("via", case.get("via", "patch_obj"))
+        ctx.count("via", case.get("via", "patch_obj") if case.get("carrier", "event") == "daemon" else "real process_resource_event")
+        for cyc in case["cycles"]:
+            for d in cyc["fns"]:
+                ctx.count("fn_shape", {"p": "functools.partial", "c": "callable object"}.get(d[0][0], "function") if d[0] not in ("block", "allow") else "kopf's own partial")
         ctx.count("subresource", case["sub"])
         cyc_obs = [o for o in obs["cycles"] if "reqs" in o]
         for a, b in zip(cyc_obs, cyc_obs[1:]):
@@ -978,7 +1178,7 @@ def evaluate(ctx: Ctx, cases: list[dict], tie: bool = True) -> None:
         mcycles = out[1]["cycles"]
         icycles = [o for o in obs["cycles"] if "skipped" not in o]
         impl = [impl_view(o, via) for o in icycles]
-        model = [model_view(m, via) for m in mcycles[:len(icycles)]]
+        model = [model_view(m, via, "memory_after" in o) for m, o in zip(mcycles, icycles)]
         ctx.compare("C08 patching call", impl, model, {"case": case})
         ctx.traces += 1
 
@@ -1025,11 +1225,11 @@ def search(ctx: Ctx, broken: list) -> None:
         if case and "cycles" in case:
             first.append(case)
     evaluate(ctx, first, tie=False)
-    if any(f.kind == "oracle" and f.signature not in (SIG_F2, SIG_STATUS_NULL) for f in ctx.failures):
+    if any(f.kind == "oracle" and f.signature not in (SIG_F2, SIG_STATUS_NULL, SIG_F3) for f in ctx.failures):
         return
     cases = grid() + [gen_random(ctx.rng, 9_000_000 + ctx.seed * 1_000_000 + i) for i in range(ctx.budget(12000, 100000))]
     evaluate(ctx, cases, tie=False)
-    if any(f.kind == "oracle" and f.signature not in (SIG_F2, SIG_STATUS_NULL) for f in ctx.failures):
+    if any(f.kind == "oracle" and f.signature not in (SIG_F2, SIG_STATUS_NULL, SIG_F3) for f in ctx.failures):
         return
     from . import sim_c08
     firsts = []
